@@ -119,7 +119,7 @@ import stat as _stat
 def snapshot(root):
     out = {}
     for dirpath, dirnames, filenames in os.walk(root):
-        out[dirpath] = ('dir',)
+        out[dirpath] = ('dir', os.lstat(dirpath).st_mtime_ns)
         for f in filenames:
             p = os.path.join(dirpath, f)
             st = os.lstat(p)
@@ -209,6 +209,15 @@ def refusal_cases(req):
         calls.append(('versions-not-json', good, lambda lg: FileBuilder.build_versioned(
             cache, 'name', {'a': object()}, basic_build, root, lg)))
         calls.append(('clean-name-not-str', good, lambda lg: FileBuilder.clean(cache, 5)))
+        calls.append(('clean-empty-name', good, lambda lg: FileBuilder.clean(cache, '')))
+        newdir_cache = os.path.join(root, 'fresh', 'deep', 'cache.gz')
+        calls.append(('func-not-callable-new-cache-dir', None, lambda lg: FileBuilder.build(
+            newdir_cache, 'name', 7)))
+        calls.append(('name-not-str-new-cache-dir', None, lambda lg: FileBuilder.build(
+            newdir_cache, None, basic_build, root, lg)))
+        calls.append(('versions-not-json-new-cache-dir', None,
+                      lambda lg: FileBuilder.build_versioned(newdir_cache, 'name', {'a': {1, 2}},
+                                                             basic_build, root, lg)))
         calls.append(('cache-is-dir', None, lambda lg: FileBuilder.build(
             os.path.join(root, 'out'), 'name', basic_build, root, lg)))
         calls.append(('cache-is-dir/clean', None, lambda lg: FileBuilder.clean(
@@ -277,6 +286,14 @@ def fence_cases(req):
             except ValueError:
                 pass
         FileBuilder.build(cache, 'n', rootf)
+
+        def root_interrupted(b):
+            held['root_interrupted'] = b
+            raise KeyboardInterrupt()
+        try:
+            FileBuilder.build(os.path.join(root, 'cache2.gz'), 'n', root_interrupted)
+        except KeyboardInterrupt:
+            pass
         logs = []
 
         def cb(b, *a):
